@@ -328,6 +328,7 @@ func cmdCheck(args []string) int {
 	verbose := fs.Bool("v", false, "verbose")
 	maxSec := fs.Float64("max-seconds", 0, "per-harness wall clock limit (0 = tier default)")
 	cpuprof := fs.String("cpuprofile", "", "write a CPU profile of the exploration")
+	timeoutMs := fs.Int("timeout-ms", 0, "solver timeout per query in ms (0 = tier default: 60 s quick, 300 s thorough)")
 	fs.Parse(args)
 	if v := os.Getenv("VERIF_TIER"); v != "" && *tier == "" {
 		*tier = v
@@ -397,12 +398,16 @@ func cmdCheck(args []string) int {
 	if tierN == 1 {
 		eng.TimeoutMs = 300000
 	}
+	if *timeoutMs > 0 {
+		eng.TimeoutMs = *timeoutMs
+	}
 
 	if *cpuprof != "" {
 		f, _ := os.Create(*cpuprof)
 		pprof.StartCPUProfile(f)
 		defer pprof.StopCPUProfile()
 	}
+	solversUsed := map[string]bool{}
 	var hev []harnessEvidence
 	var cands []ssaexec.Violation
 	inconclusive := []string{}
@@ -429,6 +434,11 @@ func cmdCheck(args []string) int {
 		if *maxSec > 0 {
 			opt.MaxSeconds = *maxSec
 		}
+		eng.Solver = *solver
+		if sv := directiveOf(h.File, h.Name, "SOLVER"); sv != "" {
+			eng.Solver = sv
+		}
+		solversUsed[eng.Solver] = true
 		res := eng.Explore(h, opt)
 		he := harnessEvidence{Name: h.Name, Package: pkgOf[h.Name], Paths: res.Paths, Status: res.Status, Asserts: res.Asserts,
 			Reach: res.Reach, Branches: res.Stats.Branches, Forks: res.Stats.Forks, Queries: res.SolverQueries,
@@ -584,7 +594,7 @@ func cmdCheck(args []string) int {
 				"models_and_stubs_hit":          eng.ModelsHit(),
 				"bounds":                        bounds,
 				"harnesses":                     hev,
-				"solver":                        *solver,
+				"solver":                        keysOf(solversUsed),
 				"solver_queries":                totalQueries,
 				"solver_seconds":                round3(solverSec),
 				"load_seconds":                  round3(eng.LoadSeconds),
@@ -686,4 +696,44 @@ func assumptionsOf(pkgs []*harnessPkg) []string {
 		"maps iterate in insertion order in the engine (one legal order); goroutines started with `go` run to completion at the go statement",
 		"only counterexamples that reproduce against the natively compiled real code are reported as violations")
 	return out
+}
+
+
+func keysOf(m map[string]bool) []string {
+	var out []string
+	for k := range m {
+		out = append(out, k)
+	}
+	sort.Strings(out)
+	return out
+}
+
+// directiveOf reads a "// NAME: value" line from the comment block preceding the harness function.
+func directiveOf(file, harness, name string) string {
+	src, err := os.ReadFile(file)
+	if err != nil {
+		rel, _ := filepath.Rel(repoDir, file)
+		src, err = os.ReadFile(filepath.Join(verifDir, "harness", rel))
+		if err != nil {
+			return ""
+		}
+	}
+	idx := strings.Index(string(src), "func "+harness+"(")
+	if idx < 0 {
+		return ""
+	}
+	lines := strings.Split(string(src[:idx]), "\n")
+	for i := len(lines) - 1; i >= 0; i-- {
+		l := strings.TrimSpace(lines[i])
+		if l == "" && i == len(lines)-1 {
+			continue
+		}
+		if !strings.HasPrefix(l, "//") {
+			break
+		}
+		if rest := strings.TrimSpace(strings.TrimPrefix(l, "//")); strings.HasPrefix(rest, name+":") {
+			return strings.TrimSpace(strings.TrimPrefix(rest, name+":"))
+		}
+	}
+	return ""
 }
